@@ -1,5 +1,5 @@
 """C02 — axis-parallel inputs are clipped exactly, whatever their degeneracy (DESIGN 6 C02)."""
-import json, os, sys, time, glob, threading
+import json, os, re, sys, time, glob, threading
 import concurrent.futures as cf
 import vf
 sys.path.insert(0, os.path.join(vf.VERIF, 'gen'))
@@ -194,14 +194,18 @@ class Scope:
                 h = v.split()
                 self.nexec += int(h[1]); self.nne += int(h[2]); self.npaths += int(h[3]); self.nverts += int(h[4])
                 continue
-            t = v.split(';')
+            t = re.split(r';(?=\d+ \d+ \d+ \d+\|)', v)      # messages may themselves contain ';'
             h = t[0].split()
             if not h or h[0] != 'BAD':
                 raise vf.Infra('C02 oracle said: %s' % v[:500])
             self.nexec += int(h[1]); self.nne += int(h[2]); self.npaths += int(h[3]); self.nverts += int(h[4])
             self.nbad += 1
             for ent in t[1:]:
-                head, key, msg, outp = ent.split('|')
+                parts = ent.split('|')
+                if len(parts) < 4:                      # debug aid: never lose a failure to a formatting surprise
+                    ctx.log('C02 oracle entry with %d fields: %r (verdict %r)' % (len(parts), ent[:300], v[:600]))
+                    parts = (parts + ['', '', '0'])[:4]
+                head, key, msg, outp = parts[0], parts[1], parts[2], '|'.join(parts[3:])
                 idx, ct, fr, pc = [int(x) for x in head.split()]
                 scale = 'k=%d' % tf[0] if tf[0] < 1000 else 'k=2^%d' % (tf[0].bit_length() - 1)
                 ctx.hist('failures', '%s %s/%s pc=%d %s %s' % (key, CT[ct], FR[fr], pc, cls or shape_of(S, C), scale))
